@@ -32,6 +32,17 @@ func (x *Exec) execInstr(fr *Frame, st *State, instr ssa.Instruction) {
 		}
 		x.storePlace(st, p, x.zeroValue(elem))
 		x.initGhostBools(st, elem, r)
+		if at, ok := elem.Underlying().(*types.Array); ok {
+			// a heap array (make([]T, const) compiles to new [n]T + slice): its elements, as seen through a slice
+			// of it, start out zero
+			et := at.Elem()
+			zs := x.flatten(x.zeroValue(et))
+			for i, lf := range leavesOf(et) {
+				name := "E|" + typeName(et) + "|" + lf.Name
+				arrs := x.heapGet(st, name, ArrSort(SInt, ArrSort(SInt, lf.Sort)))
+				x.heapSet(st, name, x.define("h", Store(arrs, r, x.constArray(SInt, zs[i]))))
+			}
+		}
 		fr.vals[ins] = VScalar{r}
 	case *ssa.Store:
 		addr := x.get(fr, ins.Addr)
@@ -192,9 +203,10 @@ func (x *Exec) execUnOp(fr *Frame, st *State, ins *ssa.UnOp) {
 		// channel receive: havoc
 		elem := ins.X.Type().Underlying().(*types.Chan).Elem()
 		v := x.havocValue(st, "recv", elem)
+		ok := x.fresh("recvok", SBool)
+		x.chanRecvFacts(st, elem, v, ok)
+		x.recvZeroIfClosed(elem, v, ok)
 		if ins.CommaOk {
-			ok := x.fresh("recvok", SBool)
-			x.chanRecvFacts(st, elem, v, ok)
 			fr.vals[ins] = VTuple{[]Value{v, VScalar{ok}}}
 		} else {
 			fr.vals[ins] = v
@@ -1009,6 +1021,7 @@ func (x *Exec) execSelect(fr *Frame, st *State, ins *ssa.Select) {
 			elem := s.Chan.Type().Underlying().(*types.Chan).Elem()
 			rv := x.havocValue(st, "selrecv", elem)
 			x.chanRecvFacts(st, elem, rv, And(Eq(idx, IntLit(int64(i))), vals[1].(VScalar).T))
+			x.recvZeroIfClosed(elem, rv, Or(Not(Eq(idx, IntLit(int64(i)))), vals[1].(VScalar).T))
 			vals = append(vals, rv)
 		} else {
 			x.chanSendCheck(st, s.Chan.Type().Underlying().(*types.Chan).Elem(), x.get(fr, s.Send), s.Pos)
@@ -1038,14 +1051,34 @@ func (x *Exec) chanProto(elem types.Type) bool {
 		return false
 	}
 	n := typeName(elem)
-	return x.C.ChanNonNil[n]
+	return x.C.ChanNonNil[n] || x.C.ChanInv[n] != nil
+}
+
+// recvZeroIfClosed: a receive from a closed channel yields the zero value of the element type.
+func (x *Exec) recvZeroIfClosed(elem types.Type, v Value, ok Term) {
+	if !x.chanProto(elem) {
+		return
+	}
+	defer func() { recover() }()
+	zs := x.flatten(x.zeroValue(elem))
+	vs := x.flatten(v)
+	if len(zs) != len(vs) {
+		return
+	}
+	for i := range vs {
+		if vs[i].Sort == zs[i].Sort {
+			x.assume(Implies(Not(ok), Eq(vs[i], zs[i])))
+		}
+	}
 }
 
 func (x *Exec) chanRecvFacts(st *State, elem types.Type, v Value, ok Term) {
 	if !x.chanProto(elem) {
 		return
 	}
-	x.assume(Implies(ok, Not(Eq(x.flatten(v)[0], IntLit(0)))))
+	if x.C.ChanNonNil[typeName(elem)] {
+		x.assume(Implies(ok, Not(Eq(x.flatten(v)[0], IntLit(0)))))
+	}
 	if s, isS := v.(VScalar); isS {
 		x.assume(Implies(ok, Le(s.T, st.wm)))
 	}
@@ -1061,7 +1094,9 @@ func (x *Exec) chanSendCheck(st *State, elem types.Type, v Value, pos token.Pos)
 	if !x.chanProto(elem) {
 		return
 	}
-	x.check(st, "chan-protocol", nil, pos, x.srcAt(pos)+": value sent is non-nil", Not(Eq(x.flatten(v)[0], IntLit(0))))
+	if x.C.ChanNonNil[typeName(elem)] {
+		x.check(st, "chan-protocol", nil, pos, x.srcAt(pos)+": value sent is non-nil", Not(Eq(x.flatten(v)[0], IntLit(0))))
+	}
 	if c := x.C.ChanInv[typeName(elem)]; c != nil {
 		env := &SpecEnv{x: x, st: st, vars: map[string]SVal{"v": {v, goT(elem)}}, pkg: x.typesPkg(x.C.ChanInvPkg[typeName(elem)])}
 		g := x.safeEvalBool(env, c, "channel protocol of "+typeName(elem))
